@@ -122,6 +122,19 @@ def script_job(L, cmpf, tier, split=None):
                bounds="L=%d" % L, native=NATIVE, timeout=300 if tier == "quick" else 1500)
 
 
+def opseq_job(seq, cmpf, tier, split=None):
+    """fixed operation sequence (0 insert, 1 remove, 2 find), symbolic argument ranks: reaches shapes the short scripts cannot"""
+    L = len(seq)
+    j = script_job(L, cmpf, tier, split)
+    j.name = "C11.opseq.%s.%s" % ("".join("IRF"[o] for o in seq), "usercmp" if cmpf else "ptrcmp") + \
+             (".part%dof%d" % (split[1] + 1, split[0]) if split else "")
+    j.defines["VF_OPSEQ"] = "{%s}" % ",".join(str(o) for o in seq)
+    j.symbolic = ["relative position of the argument of every step", "dtor installed"]
+    j.bounds = "fixed ops %s" % j.name
+    j.timeout = 1500
+    return j
+
+
 def ptrcmp_jobs(tier):
     sym = ["offset of pointer a", "offset of pointer b", "offset of pointer c (each < 2^54)"]
     js = [Job("C11.ptrcmp.contract", "l0/bst_ptrcmp.c", sources=L0_SRC, extra_harness=["common/vf_defs.c"],
@@ -143,6 +156,8 @@ def jobs(tier):
             js.append(script_job(3, cmpf, tier))
         else:
             js += [script_job(4, cmpf, tier, (8, i)) for i in range(8)]
+            if not cmpf:
+                js += [opseq_job([0, 0, 0, 0, 1, 0], cmpf, tier, (2, i)) for i in range(2)]   # insert x4, remove, insert
     for k in range(n, -1, -1):
         for par, side, code in shapes(k):
             js += step_jobs(k, par, side, code, tier)
